@@ -5,7 +5,7 @@ ways, none of which comes from the code under test: (1) closed definitions prove
 packed-integer format), (2) digests / CRCs computed ONCE by the pinned tree (vectors/C16/*.txt), (3) tiny arrays
 written ONCE by the pinned binary (vectors/C16/arrays).  The Gallina models are tied to the C on every run by
 the unit driver harness/c/c16_drv.c (model = extracted OCaml)."""
-import os, sys, json, time, threading, shutil
+import os, sys, json, time, threading, shutil, re, glob
 from common import *
 import c16_lib as L
 import c16_arrays as A
@@ -140,6 +140,37 @@ def array_block_hash_cases():
     return out
 
 
+def obligation_name(f):
+    """the lemma / theorem enclosing the first error location of a failed obligation, and the Props statement(s) that
+    are `exact` of it"""
+    where = f.get('where', '')
+    m = re.match(r'(.+\.v):(\d+)$', where)
+    if not m:
+        return where
+    path, line = os.path.join(COQ, m.group(1)), int(m.group(2))
+    try:
+        src = open(path).read().split('\n')
+    except OSError:
+        return where
+    name = None
+    for l in src[:line]:
+        mm = re.match(r'\s*(?:Theorem|Lemma|Corollary|Example|Definition|Fixpoint)\s+(\w+)', l)
+        if mm:
+            name = mm.group(1)
+    props = []
+    if name:
+        for pf in glob.glob(os.path.join(COQ, 'Props', 'Properties_C16*.v')):
+            cur = None
+            for l in open(pf):
+                mm = re.match(r'(?:Theorem|Example)\s+(\w+)', l)
+                if mm:
+                    cur = mm.group(1)
+                mm = re.match(r'\s*Proof\.\s*exact\s+(.*?)\.\s*Qed\.', l)
+                if mm and cur and name in re.findall(r'\w+', mm.group(1)):
+                    props.append(cur)
+    return '%s (%s)%s' % (name or '?', where, ' = ' + ', '.join(props) if props else '')
+
+
 def rbytes(rng, n):
     return bytes(rng.getrandbits(8) for _ in range(n)) if n else b''
 
@@ -183,11 +214,14 @@ def main(tier, replay=None):
     ob = check_obligations('C16')
     proof_coverage(chk, ob, 'make -f Makefile.coq -k Props/Properties_C16.vo (coqc 8.16.1, full .vo) + Print Assumptions',
                    ['Coq 8.16.1 kernel incl. vm_compute', 'harness/gen/crc.py (regex translator of the CRC32C_0..3 initialisers)',
-                    'harness/gen/c16_vectors.py (text vectors -> Coq data)', 'extraction (ExtrOcamlBasic only) + ocaml/C16/driver.ml',
+                    'harness/gen/c16_vectors.py (text vectors -> Coq data)',
+                    'harness/gen/hashc.py (C-subset translator of murmur3.c / spooky2.c / util_rotl32,64 -> Gen/HashProgs.v; control structure token-recognised; '
+                    'a size_t operand of a 32-bit ^= is truncated at the use, justified by C16_hashc_w32_lxor)', 'extraction (ExtrOcamlBasic only) + ocaml/C16/driver.ml',
                     'harness/c/c16_drv.c', 'harness/py/c16_lib.py + the table-driven CRC in check_C16.py (independent oracles)',
                     'vectors/C16/*.txt and vectors/C16/arrays/* were produced by the pinned tree / binary (commit e695936)',
                     'ASSUMED: crc32b/crc32q (SSE4.2) compute the bit-serial byte step on 1/8 bytes (CrcModel.hw_crc32b/q); validated by the run on this CPU',
-                    'hash models (Murmur3.v, Spooky2.v) are hand transcriptions validated on vectors, not proved equal to the C for all inputs',
+                    'hash models (Murmur3.v, Spooky2.v) are hand-written; proved equal, for every seed and byte list, to the functions translated from the '
+                    'source on every run (Props/Properties_C16_hashc.v), and validated on vendored digests',
                     'little-endian host (WORDS_BIGENDIAN branches not modelled)'])
     if regen_msgs or REGEN_ERRORS:
         chk.notes.append('translator: ' + '; '.join(list(regen_msgs) + list(REGEN_ERRORS)))
@@ -501,10 +535,17 @@ def main(tier, replay=None):
                           sorted(set([0, 1100, len(cases) // 3, len(cases) // 2, (2 * len(cases)) // 3, len(cases) - 1]))]
 
     # ---------------- broken obligations ----------------
-    if ob['failed'] and not chk.violations:
-        chk.violation('obligation', 'proof obligation of C16 no longer checks: %s' % ob['failed'][0],
-                      {'theorem_file': 'coq/Props/Properties_C16.v', 'failed': ob['failed'], 'log_tail': ob['log'][-1500:],
-                       'search': 'differential run found no input on which the C leaves the reference (%d evaluations)' % ev}, no_input=True)
+    if ob['failed']:
+        names = [obligation_name(f) for f in ob['failed']]
+        chk.cov['failed_obligations'] = names
+        # with a concrete failing input already reported the obligation is named in an extra line; without one the
+        # property is no longer shown and the search has found nothing
+        chk.violation('obligation', 'proof obligation of C16 no longer checks: %s -- %s' % ('; '.join(names),
+                      ' | '.join('%s: %s' % (f.get('where'), str(f.get('error'))[:200]) for f in sorted(ob['failed'], key=lambda f: f.get('where') != 'translator'))[:500]),
+                      {'theorem_files': ['coq/Props/Properties_C16.v', 'coq/Props/Properties_C16_hashc.v'], 'failed': ob['failed'], 'named': names,
+                       'log_tail': ob['log'][-1500:],
+                       'search': 'differential run: %d violations with a concrete input (%d evaluations)' % (len(chk.violations), ev)},
+                      no_input=not chk.violations)
     chk.assumptions += ['hash models are validated on vendored digests (finite theorem: 4 seeds x lengths 0..260; run: 0..1100 x 8 seeds + random), not proved',
                         'crc32b/crc32q semantics assumed (Intel SDM); exercised on this CPU: %s' % cpu,
                         'the vendored vectors and arrays were written by the pinned tree; a defect already present there is not visible to this check',
